@@ -10,10 +10,10 @@ from . import keys as keypool
 # ------------------------------------------------------------------ pinned source text (nothing here goes through py2coq)
 PINS = {
     'IntegrityProtectedSKEDataV1.encrypt': '4df5ab8ae79378603272ea3f',
-    'IntegrityProtectedSKEDataV1.decrypt': '879b19e68591756b682d86e9',
+    'IntegrityProtectedSKEDataV1.decrypt': 'c1eef8049b8ffe1ad67ce1bf',
     'IntegrityProtectedSKEDataV1.parse': '7313873e82d7a82875d76086',
     'PKESessionKeyV3.decrypt_sk': '5621f0773b0d485b3279c3d8',
-    'PKESessionKeyV3.encrypt_sk': 'afa44d8349df109e66ff4c44',
+    'PKESessionKeyV3.encrypt_sk': '170b82b3f5926811069a2a6f',
     'PKESessionKeyV3.parse': '2ebb141c0279b42d3965c734',
     'PKESessionKeyV3.__bytearray__': 'ae69825ee724d90a44ad50fd',
     'SKESessionKeyV4.decrypt_sk': '1bdcb446948494be46277a26',
@@ -523,6 +523,7 @@ def unit_suites(ctx, w):
                       member(PK) + ' ' + member(H), d.call('enums', hn(a)))
     ctx.exhaustive.append('algorithm tables: all 256 octet values (membership, key size, block size)')
 
+    somekey = keydesc1(enc_target(w, 'rsa2048')) if 'rsa2048' in w.keys else keydesc1(enc_target(w, next(iter(w.keys))))
     # ---- PKESK m: encrypt_sk with a stub public key sees m; model and RFC 5.1 transcription must give the same octets
     for i in range(ctx.n(60, 600)):
         a = rng.choice(CIPHERS)
@@ -530,10 +531,21 @@ def unit_suites(ctx, w):
         key = bytes(rng.choice([0, 255, rng.randrange(256)]) for _ in range(n)) if i % 5 == 0 else bytes(rng.randrange(256) for _ in range(n))
         stub = _StubRSA()
         p = PKESessionKeyV3(); p.pkalg = 1
-        p.encrypt_sk(stub, S(a), key)
+        o = outcome(p.encrypt_sk, stub, S(a), key)
         mm, rm = d.call('pkesk_m', hn(a), hx(key)).split(' ')
         case = {'op': 'pkesk_m', 'alg': a, 'key': key.hex()}
-        ctx.case('pkesk-m', (a, key), sample=dict(case, impl=stub.seen.hex()))
+        ctx.case('pkesk-m', (a, key), nontrivial=o[0] == 'ok', sample=dict(case, impl=repr(o[:2]) if stub.seen is None else stub.seen.hex()))
+        if n != KEYLEN[a]:
+            # a session key of another length than the cipher's key size is refused (the recipient could never slice it back)
+            me = d.call('pkesk', somekey, hn(a), hx(key))
+            ctx.expect_eq('pkesk-m', 'encrypt_sk on a session key of the wrong length differs from model', case,
+                          'raise ' + o[1] if o[0] == 'raise' else 'ok', me)
+            if o != ('raise', 'PGPEncryptionError'):
+                ctx.fail('pkesk-m', 'encrypt_sk accepted a session key whose length is not the key size of the cipher', case)
+            continue
+        if o[0] != 'ok':
+            ctx.fail('pkesk-m', 'encrypt_sk refused a session key of the right length', dict(case, impl=repr(o)))
+            continue
         ctx.expect_eq('pkesk-m', 'encrypt_sk forms m differently from the model', case, hx(stub.seen), mm)
         ctx.expect_eq('pkesk-m', 'm is not RFC 4880 5.1 (alg || key || sum mod 65536)', case, hx(stub.seen), rm)
 
@@ -630,7 +642,12 @@ def unit_suites(ctx, w):
         # direct oracle (RFC 5.13/5.14): accepted => last 22 octets are D3 14 || SHA-1(everything before the digest), repeat holds
         ok_rfc = (len(pt) >= 22 and bytes(pt[-22:-20]) == b'\xd3\x14' and hashlib.sha1(bytes(pt[:-20])).digest() == bytes(pt[-20:])
                   and bytes(pt[bs - 2:bs]) == bytes(pt[bs:bs + 2]) and len(pt[bs:bs + 2]) == 2)
-        if (o[0] == 'ok') != ok_rfc:
+        # documented leniency of the code (C04_seipd_accept_lengths): a text that is an MDC packet alone -- no prefix at all -- is
+        # accepted as empty data, because the repeated-octets check is made after the MDC packet has been cut off
+        lenient = len(pt) == 22 and bytes(pt[:2]) == b'\xd3\x14' and hashlib.sha1(bytes(pt[:2])).digest() == bytes(pt[2:])
+        if lenient:
+            ctx.dist['seipd-gate:mdc-only-accepted-as-empty'] = ctx.dist.get('seipd-gate:mdc-only-accepted-as-empty', 0) + 1
+        if (o[0] == 'ok') != (ok_rfc or lenient):
             ctx.fail('seipd-gate', 'decrypt accepts/refuses against RFC 4880 5.13 (MDC over prefix||data||D3 14, repeated octets)',
                      dict(case, impl=repr(o)[:80], rfc=ok_rfc))
 
@@ -821,14 +838,12 @@ def decryptor_suite(ctx, w):
             else:
                 pt = unhx(mo[3:])
                 ctx.case('independent-decryptor', (i, r), sample=dict(desc, recipient=list(r[:2])))
-                if pt[:-22] != inner:
+                if pt != inner:
                     ctx.fail('independent-decryptor', 'independent decryptor recovers different plaintext packets', dict(case, model=pt[:200].hex()))
-                if pt[-22:-20] != b'\xd3\x14':
-                    ctx.fail('independent-decryptor', 'no MDC packet at the end of the plaintext', case)
         # caller-supplied session key is the one in use
         if sk is not None:
             mo = d.call('seipd_dec', hn(alg), hx(sk), hx(bytes(em._message.ct)))
-            if not (mo.startswith('ok ') and unhx(mo[3:])[:-22] == inner):
+            if not (mo.startswith('ok ') and unhx(mo[3:]) == inner):
                 ctx.fail('roundtrip', 'caller-supplied session key does not decrypt the data packet', case0)
 
 
@@ -923,20 +938,107 @@ def encryptor_suite(ctx, w):
                          dict(case, recipient=list(r), impl=repr(o)[:300]))
 
 
+def _ref_pkesk_open(m):
+    """RFC 4880 5.1 read side, written independently: ('ok', alg, key) | 'raise'"""
+    ks = {1: 16, 2: 24, 3: 16, 4: 16, 7: 16, 8: 24, 9: 32, 10: 32, 11: 16, 12: 24, 13: 32}
+    if not m or m[0] not in ks:
+        return 'raise'
+    n = ks[m[0]]
+    key = m[1:1 + n]
+    if sum(key) % 65536 != int.from_bytes(m[1 + n:3 + n], 'big'):
+        return 'raise'
+    return ('ok', m[0], bytes(key))
+
+
 def replay(ctx, case):
-    """re-run one recorded case on the implementation; True = it still fails"""
+    """re-run one recorded case on the implementation against the direct oracle (no model involved); True = it still fails"""
     w = World(ctx)
     try:
+        from pgpy.constants import SymmetricKeyAlgorithm as S, PubKeyAlgorithm as PK
+        from pgpy.packet.packets import PKESessionKeyV3, IntegrityProtectedSKEDataV1
+        from pgpy.packet.types import MPI
         op = case.get('op')
-        if op in ('roundtrip', 'encryptor') and case.get('blob') and case.get('want') is not None:
-            bad = False
+        if op in ('roundtrip', 'encryptor'):
+            if not case.get('blob') or case.get('want') is None:
+                return True
             rs = [case['recipient']] if case.get('recipient') else case.get('recips', [])
-            for r in rs:
-                o = w.impl_decrypt(bytes.fromhex(case['blob']), tuple(r))
-                bad = bad or o != ('ok', case['want'])
-            return bad
+            return any(w.impl_decrypt(bytes.fromhex(case['blob']), tuple(r)) != ('ok', case['want']) for r in rs)
+        if op == 'seipd_gate':
+            a, key, ct = case['alg'], bytes.fromhex(case['key']), bytes.fromhex(case['ct'])
+            sp = IntegrityProtectedSKEDataV1(); sp.ct = bytearray(ct)
+            o = outcome(lambda: bytes(sp.decrypt(key, S(a))))
+            pt = cfb(a, key, ct, False); bs = BLOCK[a]
+            mdc = len(pt) >= 22 and pt[-22:-20] == b'\xd3\x14' and hashlib.sha1(pt[:-20]).digest() == pt[-20:]
+            ok = mdc and (len(pt) == 22 or (len(pt) >= bs + 24 and pt[bs - 2:bs] == pt[bs:bs + 2]))
+            return (o[0] == 'ok') != ok or (ok and o[1] != pt[bs + 2:-22])
+        if op == 'seipd_enc':
+            import pgpy.constants as C
+            a, key, iv, data = case['alg'], bytes.fromhex(case['key']), bytes.fromhex(case['iv']), bytes.fromhex(case['data'])
+            real = C.os.urandom
+            C.os.urandom = lambda n: iv[:n] if n == len(iv) else real(n)
+            try:
+                sp = IntegrityProtectedSKEDataV1(); sp.encrypt(key, S(a), data)
+            finally:
+                C.os.urandom = real
+            body = iv + iv[-2:] + data + b'\xd3\x14'
+            return cfb(a, key, bytes(sp.ct), False) != body + hashlib.sha1(body).digest()
+        if op == 'pkesk_m':
+            a, key = case['alg'], bytes.fromhex(case['key'])
+            stub = _StubRSA(); p = PKESessionKeyV3(); p.pkalg = 1
+            p.encrypt_sk(stub, S(a), key)
+            return stub.seen != bytes([a]) + key + (sum(key) % 65536).to_bytes(2, 'big')
         if op == 'pkesk_open':
+            m = bytes.fromhex(case['m'])
+            stub = _StubRSA(m); p = PKESessionKeyV3(); p.pkalg = 1; p.ct.me_mod_n = MPI(12345)
+            o = outcome(p.decrypt_sk, stub)
+            ref = _ref_pkesk_open(m)
+            got = ('ok', int(o[1][0]), bytes(o[1][1])) if o[0] == 'ok' else 'raise'
+            return got != ref
+        if op == 'rsa_pad':
+            bits, v = case['bits'], int(case['v'], 16)
+            stub = _StubRSA(bytes([9]) + bytes(34), bits); p = PKESessionKeyV3(); p.pkalg = 1; p.ct.me_mod_n = MPI(v)
+            outcome(p.decrypt_sk, stub)
+            return stub.seen is None or len(stub.seen) != bits // 8 or int.from_bytes(stub.seen, 'big') != v
+        if op == 'kdf':
+            k = w.keys[case['key']]
+            for sk in [k] + list(k.subkeys.values()):
+                if str(sk.fingerprint).replace(' ', '') == case['fp']:
+                    km = sk._key.keymaterial
+                    s_ = bytes.fromhex(case['s'])
+                    oid = oid_octets(str(km.oid.value))
+                    param = bytes([len(oid)]) + oid + bytes([18, 3, 1, int(km.kdf.halg), int(km.kdf.encalg)]) + b'Anonymous Sender    ' + bytes.fromhex(case['fp'])
+                    want = hashlib.new(HASHES[int(km.kdf.halg)], b'\x00\x00\x00\x01' + s_ + param).digest()[:S(int(km.kdf.encalg)).key_size // 8]
+                    return bytes(km.kdf.derive_key(s_, km.oid, PK.ECDH, sk.fingerprint)) != want
             return True
+        if op == 's2k':
+            from pgpy.packet.fields import String2Key
+            s_ = String2Key(); s_.usage = 255; s_.encalg = case['alg']; s_.specifier = case['type']; s_.halg = case['hash']
+            s_.salt = bytearray(bytes.fromhex(case['salt'])); s_.count = case['count']
+            o = outcome(lambda: bytes(s_.derive_key(bytes.fromhex(case['pass']))))
+            kind = {0: 0, 3: 3}.get(case['type'], 1)
+            cnt = (16 + (case['count'] & 15)) << ((case['count'] >> 4) + 6)
+            r = outcome(s2k_rfc, kind, case['hash'], bytes.fromhex(case['salt']) if kind else b'', cnt, KEYLEN[case['alg']], bytes.fromhex(case['pass']))
+            return o[0] != r[0] or (o[0] == 'ok' and o[1] != r[1])
+        if op in ('pad', 'unpad'):
+            from cryptography.hazmat.primitives.padding import PKCS7
+            m = bytes.fromhex(case['m'])
+            if op == 'pad':
+                p = PKCS7(64).padder(); n = 8 - len(m) % 8
+                return p.update(m) + p.finalize() != m + bytes([n]) * n
+            u = PKCS7(64).unpadder()
+            o = outcome(lambda: u.update(m) + u.finalize())
+            ok = len(m) > 0 and len(m) % 8 == 0 and 1 <= m[-1] <= 8 and m[-m[-1]:] == bytes([m[-1]]) * m[-1]
+            return (o[0] == 'ok') != ok or (ok and o[1] != m[:-m[-1]])
+        if op == 'tables':
+            a = case['alg']
+            ks = {1: 128, 2: 192, 3: 128, 4: 128, 7: 128, 8: 192, 9: 256, 10: 256, 11: 128, 12: 192, 13: 256}
+            try:
+                al = S(a)
+            except ValueError:
+                return a in ks or a == 0
+            if a == 0:
+                return False
+            return al.key_size != ks.get(a) or al.block_size != (64 if a <= 4 else 128)
         return True
     finally:
         w.close()
